@@ -12,7 +12,7 @@
 use h_wallet::chain::{OutReq, Pool, TxReq};
 use h_wallet::run::Run;
 use h_wallet::util::{NdjsonWriter, quiet_panics, seed_from_env};
-use rand::{Rng, SeedableRng};
+use rand::{Rng, SeedableRng, seq::SliceRandom};
 use rand_chacha::ChaChaRng;
 use serde_json::json;
 
@@ -167,6 +167,38 @@ fn tree_scenarios(out: &mut NdjsonWriter, ironwood: bool, variants: &[u64]) {
         let top = r.chain.top();
         r.trunc(top.saturating_sub(99).max(r.chain.base + 1), false);
         r.catch_up_and_fresh();
+    }
+}
+
+/// C06: a rewind to a height at which one pool's tree is still EMPTY (the pool receives its first commitment only
+/// later), after that pool had received commitments above the height; the chain continues differently.  Everything
+/// is scanned in single batches that start at or below the rewind height, so the open stale-frontier finding does not
+/// apply: the rescan must succeed and every root / witness must be the new chain's.
+fn empty_pool_scenarios(out: &mut NdjsonWriter) {
+    for (k, (ironwood, late)) in [(false, Pool::Orchard), (false, Pool::Sapling), (true, Pool::Ironwood), (true, Pool::Orchard)].into_iter().enumerate() {
+        let mut r = Run::new(out, 7100 + k as u64, ironwood, json!(format!("E late={} iw={ironwood}", late.code())));
+        let early: Vec<Pool> = r.pools().into_iter().filter(|p| *p != late).collect();
+        let one = |r: &mut Run, pool: Pool, mine: bool| {
+            let value = r.value();
+            r.block(&[TxReq { outs: vec![OutReq { pool, acct: if mine { 1 } else { 0 }, internal: false, diversified: false, value }], spends: vec![], foreign_spends: vec![] }], &[], false);
+        };
+        for i in 0..4usize { one(&mut r, early[i % early.len()], i % 2 == 0); }
+        for i in 0..4usize { one(&mut r, late, i % 2 == 1); one(&mut r, early[i % early.len()], false); }
+        r.tip_top();
+        let base = r.chain.base;
+        let n = (r.chain.top() - base) as usize;
+        r.scan(base + 1, n);
+        // back to a height at which the late pool has no commitment yet; a different continuation
+        if r.trunc(base + 3, true).is_some() {
+            for i in 0..3usize { one(&mut r, late, i % 2 == 0); }
+            one(&mut r, early[0], true);
+            r.empties(1);
+            r.tip_top();
+            let from = r.chain.base + 4;
+            let n = (r.chain.top() + 1 - from) as usize;
+            r.scan(from, n);
+            r.catch_up_and_fresh();
+        }
     }
 }
 
@@ -509,6 +541,101 @@ fn shard_pool_scenarios(out: &mut NdjsonWriter, seed: u64, n: u64) {
     }
 }
 
+/// C15, queue hygiene (WalletQueue.tla Prune / QueueRescans): histories in which prune_scan_queue_below (every retain
+/// form, heights at and around the boundaries of the stored ranges) and queue_rescans (forced, over scanned and
+/// unscanned heights, one or two ranges) are interleaved with tip updates, scans of any range, rewinds and new blocks.
+/// Only Trace_WalletQueue.tla validates these traces (the ledger specification knows nothing of the two operations).
+/// The first history ends with the one insertion the check lists as an open finding: a rescan range APART from the queue.
+fn queue_ops_scenarios(out: &mut NdjsonWriter, seed: u64, n: u64) {
+    for i in 0..n {
+        let ironwood = i % 3 == 2;
+        let mut r = Run::new(out, seed.wrapping_mul(7_368_787).wrapping_add(i), ironwood, json!(format!("queue-ops {i}")));
+        let mut rng = ChaChaRng::seed_from_u64(seed ^ (i << 16) ^ 0xC15);
+        r.no_env_rewinds = true;
+        for b in 0..rng.gen_range(18..40u32) {
+            let mut taken = vec![];
+            let ntx = if b % 3 == 0 { 1 } else { rng.gen_range(0..2) };
+            let txs: Vec<TxReq> = (0..ntx).map(|_| r.random_tx(&mut taken)).collect();
+            r.block(&txs, &[], false);
+        }
+        r.tip_top();
+        let base = r.chain.base;
+        if i % 4 == 1 {
+            // the scenario of the documentation: the head of the queue is prunable work (no Ignored / Scanned floor under
+            // it), a scanned island above it, prunable work above that, something at and above the height
+            r.prune(base + 3, -1);
+            r.scan(base + 9, 4);
+            let top = r.chain.top();
+            r.prune(top - 2, 3);
+            r.prune(top - 2, 3);   // a second time: nothing left to do
+        }
+        let ops = rng.gen_range(14..26);
+        for _ in 0..ops {
+            if r.aborted { break; }
+            let rows = r.queue_rows();
+            let top = r.chain.top();
+            let (qlo, qhi) = match (rows.first(), rows.last()) { (Some(a), Some(b)) => (a.0, b.1), _ => (base + 1, base + 1) };
+            // heights of interest: boundaries of the stored ranges and their neighbours
+            let mut marks: Vec<u32> = rows.iter().flat_map(|(s, e, _)| [*s, *e, s + 1, e.saturating_sub(1)]).filter(|h| *h > base.saturating_sub(3) && *h <= top + 3).collect();
+            marks.push(top + 1);
+            marks.push(base + 1);
+            let pick = |rng: &mut ChaChaRng, marks: &Vec<u32>| -> u32 { if rng.gen_bool(0.7) { *marks.choose(rng).unwrap() } else { rng.gen_range(base + 1..=top + 1) } };
+            match rng.gen_range(0..10) {
+                0..=2 => {
+                    let h = pick(&mut rng, &marks);
+                    let retain = *[-1i64, 2, 3, 3, 4, 5, 6].choose(&mut rng).unwrap();
+                    r.prune(h, retain);
+                }
+                3..=4 => {
+                    // ranges that overlap or touch what is queued (a range apart from the queue is the finding scenario below)
+                    if rows.is_empty() { continue; }
+                    let s = pick(&mut rng, &marks).clamp(qlo.max(base + 1), qhi);
+                    let e = s + rng.gen_range(1..6);
+                    let mut ranges = vec![(s, e)];
+                    if rng.gen_bool(0.4) {
+                        let s2 = e + rng.gen_range(0..3);
+                        ranges.push((s2, s2 + rng.gen_range(1..4)));
+                    }
+                    if rng.gen_bool(0.3) { ranges.reverse(); }
+                    let p = *[2i64, 2, 3, 4, 5, 6].choose(&mut rng).unwrap();
+                    r.rescan(&ranges, p);
+                }
+                5..=6 => {
+                    let from = pick(&mut rng, &marks).clamp(base + 1, top);
+                    // the wallet knows the tip before it scans up to it
+                    // (and the scanned range overlaps or touches what is queued)
+                    if from < qhi {
+                        let len = rng.gen_range(1..7usize).min((qhi - from) as usize);
+                        if from + len as u32 >= qlo { r.scan(from, len); }
+                    }
+                }
+                7 => {
+                    // the tip again, or a lower one that still reaches the stored queue
+                    let h = if rng.gen_bool(0.6) { top } else { rng.gen_range(base + 1..=top) };
+                    if rows.is_empty() || h + 1 >= qlo { r.tip(h); }
+                }
+                8 => {
+                    r.empties(rng.gen_range(1..4));
+                    r.tip_top();
+                }
+                _ => {
+                    let req = top.saturating_sub(rng.gen_range(1..8)).max(base + 1);
+                    r.trunc(req, rng.gen_bool(0.5));
+                    r.tip_top();
+                }
+            }
+        }
+        if i == 0 && !r.aborted {
+            let rows = r.queue_rows();
+            if let Some(last) = rows.last() {
+                let s = last.1 + 3;
+                r.rescan(&[(s, s + 2)], 2);
+                r.suggest();
+            }
+        }
+    }
+}
+
 fn main() {
     quiet_panics();
     let args: Vec<String> = std::env::args().collect();
@@ -523,6 +650,9 @@ fn main() {
             let m: u64 = args.get(5).map(|s| s.parse().unwrap()).unwrap_or(12);
             shard_pool_scenarios(&mut out, seed_from_env(), m);
         }
+    } else if args[2] == "queue-ops" {
+        let n: u64 = args.get(3).map(|s| s.parse().unwrap()).unwrap_or(8);
+        queue_ops_scenarios(&mut out, seed_from_env(), n);
     } else if args[2] == "sync-scenarios" {
         let n: u64 = args.get(3).map(|s| s.parse().unwrap()).unwrap_or(8);
         sync_scenarios(&mut out, seed_from_env(), n, false);
@@ -537,6 +667,7 @@ fn main() {
         let all = args.get(3).map(|s| s == "all").unwrap_or(false);
         tree_scenarios(&mut out, false, if all { &[0, 1, 2] } else { &[1] });
         tree_scenarios(&mut out, true, if all { &[0, 1, 2] } else { &[2] });
+        empty_pool_scenarios(&mut out);
     } else {
         let histories: usize = args[2].parse().unwrap();
         let ops: usize = args[3].parse().unwrap();
